@@ -154,11 +154,12 @@ theorem pointwise (ev : Event) (hconv : ∀ w ∈ D, ∃ c, convertOne g w = .ok
         unfold boundIvValue
         split
         · rfl
-        · cases hf : forced r i.name with
+        · rename_i hstar
+          cases hf : forced r i.name with
           | none => rfl
           | some k =>
             obtain ⟨hD, hout⟩ := hr1 _ _ hf
-            exact absurd (C.lit it hit i hi hD) hout
+            exact absurd (C.lit it hit i hi (by simpa using hstar) hD) hout
       refine ⟨ivValue ν i, ?_, Or.inl ?_⟩
       · show forced (boundWorld ν r (cOf g D n).ivs) i.name = _
         rw [hcof, forced_boundWorld ν r c.ivs i hic hcc, hlit]
